@@ -203,12 +203,22 @@ impl Check for C18 {
         vec!["`bad`/`constraint` operands need not be 1 bit wide (the statement only says declared widths)".into()]
     }
     fn shard_begin(&self, sh: &mut Shard) {
-        if !sh.verbose {
+        if !sh.verbose && !under_miri() {
             silence_stderr();
         }
     }
+    fn miri_work(&self) -> Vec<WorkItem> {
+        vec![WorkItem { mode: "miri", count: 64 }]
+    }
     fn run_case(&self, sh: &mut Shard, case: &CaseId) {
         let mut rng = Rng::new(sh.case_seed());
+        if case.mode == "miri" {
+            // mutants of freshly generated files only; str_offset does pointer arithmetic on every reported error
+            let base = gen_btor2(&mut rng).0;
+            let (text, label) = mutate(&mut rng, &base);
+            self.check_text(sh, &text, label);
+            return;
+        }
         if case.mode == "directed" {
             if let Some((name, t)) = DIRECTED.get(case.n as usize) {
                 self.check_text(sh, t, name);
